@@ -43,31 +43,31 @@ type LoopSpec struct {
 }
 
 type Contract struct {
-	Key        string
-	Pkg        *packages.Package
-	Requires   []Clause
-	Ensures    []Clause
-	Assigns    []ast.Expr
-	AssignsAll bool
-	Allocates  bool
-	Loops      map[int]*LoopSpec
-	Results    []string
-	Params     []string // for externs
-	Trusted    bool
-	Inline     bool
-	Arith      bool
-	Abstract   bool
-	Extern     bool
-	Lemma      bool
-	NoFrame    bool
-	Keep       map[string]bool // wiring units: safety obligation kinds that are nevertheless claimed
-	Wiring     bool // abstract mode, no memory-safety obligations: only call-site/ensures/invariant obligations
-	CallSites  []CallSiteSpec
-	NoWrap     bool
+	Key           string
+	Pkg           *packages.Package
+	Requires      []Clause
+	Ensures       []Clause
+	Assigns       []ast.Expr
+	AssignsAll    bool
+	Allocates     bool
+	Loops         map[int]*LoopSpec
+	Results       []string
+	Params        []string // for externs
+	Trusted       bool
+	Inline        bool
+	Arith         bool
+	Abstract      bool
+	Extern        bool
+	Lemma         bool
+	NoFrame       bool
+	Keep          map[string]bool // wiring units: safety obligation kinds that are nevertheless claimed
+	Wiring        bool            // abstract mode, no memory-safety obligations: only call-site/ensures/invariant obligations
+	CallSites     []CallSiteSpec
+	NoWrap        bool
 	NoWrapAssumed bool
-	RealDiv    bool
-	Uses       []ast.Expr
-	Line       string
+	RealDiv       bool
+	Uses          []ast.Expr
+	Line          string
 }
 
 func (c *Contract) paramNames(fn *ssa.Function) []string {
@@ -111,8 +111,8 @@ type GuardDecl struct {
 	Mutex  string
 	Fields map[string]bool
 	Owners map[string]bool // functions running on the single goroutine that owns all writes: their reads need no lock
-	Recv   string  // receiver name used in Inv
-	Inv    *Clause // lock invariant: holds whenever the lock is not held by us
+	Recv   string          // receiver name used in Inv
+	Inv    *Clause         // lock invariant: holds whenever the lock is not held by us
 	Pkg    *packages.Package
 }
 
